@@ -238,6 +238,8 @@ def family_list(tier):
         fams += [('std-cogen-sf', F.lines(F.base(3, 51, 3, 3, (3, 2, 2)))), ('std-chiller-lhs', F.lines(F.base(1, 2, 5, 2, (3, 2, 1)))),
                  ('std-heatpump', F.lines(F.base(2, 2, 6, 4, (3, 2, 1))))]
     fams.append(('sbt-eavorloop', F.lines(F.sbt_base(3, 31, 1, (3, 2, 1), 5))))     # closed loop: its own length / time / diameter inputs
+    from vf.checks import c07
+    fams.append(('sutra', c07.file_lines(c07.ex('SUTRAExample1.txt'))))             # the SUTRA writer prints its own cost and energy tables
     return fams
 
 
